@@ -309,6 +309,8 @@ class Env:
             return self.point[key]
         if key == "refSize" or key == "refAlign":
             return 8
+        if key == "maxAlign":
+            return 16
         if key.startswith("fn:"):
             params, ast, wrap = self.defs.fn[key[3:]]
             v = evaluate(ast, Env(self.defs, {p: self.point[p] for p in params}))
